@@ -382,6 +382,67 @@ def gen_apply(rng, n, *, loaders=None, getters=None, equal=None, fan_head=None):
     return {'syms': syms, 'assets': assets}
 
 
+def gen_train(rng, stages=None):
+    """Direct train-mode table: source -> feature/label split -> `stages` trained groups in a row (trainer fed by the
+    current features and the labels, one or two applied forks taking the fresh state, optional stateless worker in
+    between) -> sink; any subset of the trained groups persistent (dumper per group, one committer), optionally a
+    previous generation (the trainer then presets the loaded state). Several leaves (sink, committer, trainers of
+    groups without an applied fork) share upstream instructions - the trainer above all."""
+    stages = stages or rng.choice([1, 1, 2, 2, 3])
+    syms = [[0, F(0), []], [1, F(1), [0]], [10, ['getter', 0], [1]], [11, ['getter', 1], [1]]]
+    cur, label = 10, 11
+    key = 20
+    trained = []
+    use_assets = rng.random() < 0.85
+    retrain = use_assets and rng.random() < 0.5
+    pers_flags = {}
+    for i in range(stages):
+        g = 100 + i
+        pers_flags[g] = use_assets and rng.random() < 0.75
+        tkey, key = key, key + 1
+        targs = [cur, label]
+        npre = 0
+        if retrain and pers_flags[g]:
+            syms.append([key, ['loader', g], []])
+            targs = [key] + targs
+            npre, key = 1, key + 1
+        syms.append([tkey, F(g, 'train', npre), targs])
+        trained.append((g, tkey))
+        forks = rng.choice([0, 1, 1, 1, 2]) if i < stages - 1 or rng.random() < 0.3 else rng.choice([1, 1, 2])
+        outs = []
+        for _ in range(forks):
+            syms.append([key, F(g, 'apply', 1), [tkey, cur]])
+            outs.append(key)
+            key += 1
+        if len(outs) == 2:
+            syms.append([key, F(200 + i), outs if rng.random() < 0.5 else outs[::-1]])
+            cur, key = key, key + 1
+        elif len(outs) == 1:
+            cur = outs[0]
+        if rng.random() < 0.3:
+            syms.append([key, F(300 + i), [cur]])
+            cur, key = key, key + 1
+    syms.append([key, F(999), [cur] + ([label] if rng.random() < 0.3 else [])])
+    key += 1
+    assets = None
+    if use_assets:
+        pers = [g for g, _ in trained if pers_flags[g]]
+        rng.shuffle(pers)
+        tk = dict(trained)
+        dumpers = []
+        for g in pers:
+            syms.append([key, ['dumper'], [tk[g]]])
+            dumpers.append(key)
+            key += 1
+        if pers:
+            syms.append([key, ['committer'], dumpers])
+        prev = [int(rng.random() < 0.8) for _ in pers] if retrain else None
+        assets = {'persistent': pers, 'prev': prev}
+    if rng.random() < 0.5:
+        rng.shuffle(syms)
+    return {'syms': syms, 'assets': assets}
+
+
 def enum_apply(n, max_args=2):
     """Every apply-mode DAG of `n` stateless single-output workers, each non-head worker taking 1..max_args ordered
     arguments among the earlier workers, exactly one sink (the last worker)."""
@@ -646,7 +707,8 @@ class C02(fw.Check):
             're-materialised per back-end from its spec over real instruction objects and run by: harness interpreter, '
             'dask synchronous / threads / processes (subset), pyfunc Expression called twice and pyfunc Runner.run '
             '(apply-mode single-sink tables). A case is distinct by its spec and non-trivial when it is valid and has '
-            '>= 3 instructions. Compared with the oracle: sink outputs (actor results, by structural digest), commits; '
+            '>= 3 instructions. Compared with the oracle: sink outputs (actor results, by structural digest), commits, '
+            'executions per instruction class (exactly once; execution nonces: every consumer served by the same execution); '
             'with the Lean models: outcome class and sink values.')
     TRUSTED = [
         'symbolic actors/payloads (provenance terms, structural digests): runners are assumed payload-agnostic (DESIGN 3)',
@@ -744,6 +806,76 @@ class C02(fw.Check):
         commits = sorted([R.digest(s) for s in c] for c in orc.commits)
         return orc, sink, allv, commits
 
+    @staticmethod
+    def _classes(orc):
+        """Expected executions: {(tag, action, value digest): number of instructions}, {dumped state digest: number}"""
+        R = rt()
+        execs, dumps = collections.Counter(), collections.Counter()
+        for k, (ins, args) in orc.by.items():
+            if ins[0] == 'functor':
+                execs[(ins[1], ins[2], R.digest(orc.memo[k]))] += 1
+            elif ins[0] == 'dumper':
+                dumps[R.digest(orc.memo[args[0]])] += 1
+        return execs, dumps
+
+    def _executions(self, spec, info, backend, out, orcs, witness, sigprefix):
+        """Every instruction of the table executes exactly once per run, and every consumer of a result receives the
+        product of that one execution (instructions of equal content and equal arguments form one class: dask may
+        collapse a class into a single pure task, every other back-end executes each member)."""
+        expect, dexpect = collections.Counter(), collections.Counter()
+        for orc in orcs:
+            e, d = self._classes(orc)
+            expect.update(e)
+            dexpect.update(d)
+        got = collections.Counter((r[1], r[2], r[3]) for r in out['records'] if r[0] == 'call')
+        dgot = collections.Counter(r[1] for r in out['records'] if r[0] == 'dump')
+        briefs = {r[3]: r[4] for r in out['records'] if r[0] == 'call'}
+        collapsing = backend in DASK
+        for what, want, have in (('actor', expect, got), ('dumper', dexpect, dgot)):
+            for cls, size in want.items():
+                n = have.get(cls, 0)
+                ok = (1 <= n <= size) if collapsing else n == size
+                if not ok:
+                    name = f'actor {cls[0]} ({cls[1]})' if what == 'actor' else 'the dumper'
+                    self.violate(f'{backend}: {name} is executed {n} time(s) on the same arguments where the '
+                                 f'dependency-ordered evaluation executes {size} instruction(s) once each'
+                                 + (f': {briefs.get(cls[2])}' if what == 'actor' else ''), witness,
+                                 f'{sigprefix}:execution-count')
+                    return False
+            for cls in have:
+                if cls not in want:
+                    name = f'actor {cls[0]} ({cls[1]}) invoked with {briefs.get(cls[2])}' if what == 'actor' else 'a state dumped'
+                    self.violate(f'{backend}: {name} which no instruction of the table computes', witness,
+                                 f'{sigprefix}:extra-execution')
+                    return False
+        # one execution behind every reference
+        produced = collections.defaultdict(set)
+        for r in out['records']:
+            if r[0] == 'call':
+                produced[r[3]].add(r[5])
+            elif r[0] == 'dump':
+                produced[r[5]].add(r[3])
+        refs = collections.defaultdict(set)
+        for r in out['records']:
+            for d, n in (r[6] if r[0] == 'call' else r[4] if r[0] == 'dump' else r[3] if r[0] == 'commit' else []):
+                refs[d].add(n)
+        sizes = collections.Counter()  # how many instructions produce a value of this digest
+        for orc in orcs:
+            for k, (ins, _) in orc.by.items():
+                if ins[0] in ('functor', 'dumper'):
+                    sizes[rt().digest(orc.memo[k])] += 1
+        for d, ns in refs.items():
+            if not ns <= produced.get(d, set()):
+                self.violate(f'{backend}: a consumer received a result that no execution of this run produced', witness,
+                             f'{sigprefix}:foreign-execution')
+                return False
+            if sizes.get(d, 1) == 1 and len(ns) > 1:
+                self.violate(f'{backend}: the consumers of one instruction received the results of {len(ns)} different '
+                             f'executions of it ({briefs.get(d, "state")}): sink output and persisted state do not stem '
+                             f'from the same run of the shared instruction', witness, f'{sigprefix}:split-execution')
+                return False
+        return True
+
     def _observe(self, spec, info, backend, out, x, witness, sigprefix):
         """The oracle on one back-end outcome of a valid table that the back-end must accept."""
         R = rt()
@@ -769,6 +901,9 @@ class C02(fw.Check):
                              f'which actor {spec.get("fail")} raised; dependency-ordered evaluation: '
                              f'{R.show(orc2.memo[info["sinks"][0]], 300)}', witness, 'pyfunc:return-value-after-failure')
             return
+        orcs = [orc]
+        if backend == 'pyfunc-call':
+            orcs.append(Oracle(spec, info['head'], R.Term(*R.INPUT2)))  # the record holds both requests
         calls = collections.defaultdict(set)
         briefs = {}
         for r in out['records']:
@@ -792,6 +927,8 @@ class C02(fw.Check):
                 self.violate(f'{backend}: sink actor {ins[1]} additionally invoked with other data: {briefs.get(e)}', witness,
                              f'{sigprefix}:sink-extra-output')
                 return
+        if not self._executions(spec, info, backend, out, orcs, witness, sigprefix):
+            return
         got_commits = sorted(r[1] for r in out['records'] if r[0] == 'commit')
         if got_commits != commits:
             self.violate(f'{backend}: committed states {[r[2] for r in out["records"] if r[0] == "commit"]} differ from the '
@@ -967,6 +1104,11 @@ class C02(fw.Check):
             direct = self._bounded([(f'direct-{i}', gen_apply(rng, rng.choice([2, 3, 4, 4, 5, 5, 6, 7, 9]))) for i in range(ndir)])
             plan = {i: 'pool' for i in rng.sample(range(len(direct)), min(len(direct), self.n(14, 120)))}
             self._batch(direct, 'direct', procs_plan=plan)
+            trains = self._bounded([(f'train-{i}', gen_train(rng)) for i in range(self.n(60, 600))])
+            plan = {i: 'pool' for i in rng.sample(range(len(trains)), min(len(trains), self.n(12, 80)))}
+            for i in rng.sample(range(len(trains)), min(len(trains), self.n(2, 8))):
+                plan[i] = 'fresh'
+            self._batch(trains, 'direct-train', procs_plan=plan)
             small = []
             for n in range(2, self.n(4, 5) + 1):
                 small.extend((f'enum-{n}-{i}', s) for i, s in enumerate(enum_apply(n)))
